@@ -685,3 +685,58 @@ def _table_drop(self, ctx, index=None, inplace=False, **kw):
 
 
 STable.m_drop = _table_drop
+
+
+# ---- numeric Series <op> scalar, ~bool Series, np.floor / np.ceil of a Series -------------------------------------------------
+LIB_DOC['pandas.Series <arith> scalar'] = 'element-wise arithmetic with a scalar; NaN stays NaN'
+LIB_DOC['~ bool Series'] = 'element-wise negation'
+
+
+def _series_binop2(self, ctx, op, other, reflected):
+    from .engine import num_binop
+    if self.dtype in ('float', 'int') and is_numlike(other) and op in ('Add', 'Sub', 'Mult', 'Div'):
+        if op == 'Div' and not reflected:
+            _, d = to_real_parts(other)
+            ctx.safe('div', d != 0, exc='ZeroDivisionError')
+        if op == 'Div' and reflected:
+            raise Unsupported('Series as divisor')
+        if self.defd is not None:
+            f = smt.Forall(0, self.n, lambda i: self.defd(i), name='cd')
+            ctx.oblige('safe.column_defined.arith', f)
+        a = self.at
+        g = (lambda i: num_binop(NOCTX, op, other, a(i))) if reflected else (lambda i: num_binop(NOCTX, op, a(i), other))
+        return SSeries(self.n, g, 'float' if (op == 'Div' or self.dtype == 'float' or not is_concrete(other) or isinstance(other, float)) else 'int')
+    return _series_binop1(self, ctx, op, other, reflected)
+
+
+_series_binop1 = SSeries.sym_binop
+SSeries.sym_binop = _series_binop2
+
+
+def _series_unary(self, ctx, op):
+    if op == 'Invert' and self.dtype == 'bool':
+        a = self.at
+        return SSeries(self.n, lambda i: SBool(z3.Not(to_bool_term(a(i))), 'npbool'), 'bool')
+    raise Unsupported(f'Series unary {op}')
+
+
+SSeries.sym_unary = _series_unary
+
+
+def _wrap_unary_for_series(name):
+    from .lib import LIB
+    prev = LIB[name]
+
+    def f(interp, args, kwargs):
+        if len(args) == 1 and isinstance(args[0], SSeries) and args[0].dtype in ('float', 'int') and not kwargs:
+            s = args[0]
+            a = s.at
+            out = SSeries(s.n, lambda i: prev(interp, [a(i)], {}), 'float')
+            out.defd = s.defd
+            return out
+        return prev(interp, args, kwargs)
+    LIB[name] = f
+
+
+_wrap_unary_for_series('numpy.floor')
+_wrap_unary_for_series('numpy.ceil')
